@@ -337,6 +337,11 @@ def new_manifest_entry(tag, *args):
     return MANIFEST_TAG_MAPPING[tag](*args)
 
 
+# the longest cleartext line (in bytes, without the newline) that GnuPG
+# processes without truncating it
+OPENPGP_MAX_LINE_LENGTH = 19998
+
+
 class ManifestState:
     """
     FSM constants for loading Manifest.
@@ -415,6 +420,16 @@ class ManifestFile:
             elif state == ManifestState.SIGNED_DATA:
                 if verify_openpgp:
                     openpgp_data += line
+                    # GnuPG truncates longer lines with a mere warning,
+                    # so the text it authenticates would not be the text
+                    # we parse
+                    if (len(line) * 4 > OPENPGP_MAX_LINE_LENGTH
+                            and len(line.rstrip('\n').encode(
+                                'utf8', 'replace'))
+                            > OPENPGP_MAX_LINE_LENGTH):
+                        raise ManifestSyntaxError(
+                            'Line too long for an OpenPGP cleartext '
+                            'message')
                 if line == '-----BEGIN PGP SIGNATURE-----\n':
                     state = ManifestState.SIGNATURE
                     continue
